@@ -161,13 +161,12 @@ def FixedEnc.encode (f : FixedEnc) (cid : Nat) (text : Bytes) (width : Int) : Fi
     | some w0 => if w0 != width then (f, .widthDiffers) else f.setText code text
     | none => ({ f with width := f.width.insert cid width }).setText code text
 
-/-- `(*fixed).GetCode`: the text argument is not looked at -/
+/-- `(*fixed).GetCode`: the text argument is not looked at; a CID without a code in the CMap
+    (possible for CID 0, whose width is preset) is unmapped (fix 6288f11) -/
 def FixedEnc.getCode (f : FixedEnc) (cid : Nat) (_text : Bytes) : Option Nat :=
   match f.width.get cid with
   | none => none
-  | some _ => match f.all cid with
-    | some c => some c
-    | none => some 0
+  | some _ => f.all cid
 
 def FixedEnc.codeStep (f : FixedEnc) (s : Bytes) : CodeOut × Nat :=
   let (c, k, valid) := decode f.csr s
